@@ -362,7 +362,7 @@ def witness_worlds_template(rng):
     conc = rng.choice((('A', 1, 0), ('A', 1, 0), Fn, dia(Fn), mod(rng.choice(quants)), neg(Fm)))
     return prems, conc
 
-def gen_case(rng, logic, fragment=None, p_example=0.3):
+def _gen_case(rng, logic, fragment=None, p_example=0.3):
     prof = profile_for(rng, logic, fragment)
     sem = refsem.get(logic)
     # templates with a fixed share each (the rest: mutated library examples and free generation)
@@ -398,6 +398,34 @@ def gen_case(rng, logic, fragment=None, p_example=0.3):
                 prems, conc = mutate(rng, prems, conc, prof)
             return list(prems), conc
     return lexgen.gen_argument(rng, prof)
+
+def bulk_premises(rng, prems, modal):
+    """Many extra premises at once, all repeating one sentence of the argument (alone, next to
+    letters of their own, or as further possibilities), so that equal node content piles up on a
+    branch or spreads over many worlds."""
+    pool = [x for s in prems for x in refsem.walk(s) if not refsem._free_vars(x)]
+    if not pool:
+        return list(prems)
+    pool.sort(key=refsem.size)
+    p = rng.choice(pool[:max(1, len(pool) // 2)])
+    extras = []
+    for i in range(rng.choice((3, 5, 6, 7, 8))):
+        fresh = ('A', 3 + i % 2, 1 + i // 2)
+        r = rng.random()
+        if r < 0.45: e = ('O', 'Conjunction', (p, fresh))
+        elif r < 0.65: e = ('O', 'Conjunction', (fresh, p))
+        elif modal and r < 0.85: e = ('O', 'Possibility', (fresh,))
+        else: e = p
+        extras.append(e)
+    mp = list(prems)
+    at = rng.randrange(len(mp) + 1)
+    return mp[:at] + extras + mp[at:] if rng.random() < 0.5 else mp + extras
+
+def gen_case(rng, logic, fragment=None, p_example=0.3):
+    prems, conc = _gen_case(rng, logic, fragment, p_example)
+    if fragment != 'prop' and prems and rng.random() < 0.04:
+        prems = bulk_premises(rng, list(prems), refsem.get(logic).modal and fragment in (None, 'modal'))
+    return prems, conc
 
 def fragment_of(prems, conc):
     sents = list(prems) + [conc]
